@@ -66,8 +66,8 @@ ShiftParams(d, k) == [d EXCEPT !.params = Tup([j \in 1..Len(d.params) |-> [kind 
                                               val |-> Tup([c \in 1..Len(d.params[j].val) |-> Add(d.params[j].val[c], R(k))])]])]
 MkMulti(s) ==
   LET n == Len(s.kinds)
-      sd(i) == StageDecl(IF s.clone THEN s.kinds[1] ELSE s.kinds[i], s.hz,
-                         R(i - 1), IF i % 2 = 1 THEN R(KindOf(IF s.clone THEN s.kinds[1] ELSE s.kinds[i]).N) ELSE R(2), s.withInt)
+      sd(i) == [StageDecl(IF s.clone THEN s.kinds[1] ELSE s.kinds[i], s.hz,
+                          R(i - 1), IF i % 2 = 1 THEN R(KindOf(IF s.clone THEN s.kinds[1] ELSE s.kinds[i]).N) ELSE R(2), s.withInt) EXCEPT !.qstates = s.qst]
   IN [stages |-> Tup([i \in 1..n |-> IF s.clone THEN ShiftParams(sd(i), i - 1) ELSE sd(i)]),
       pcons |-> Couple(s.pat, n) \o (IF s.pown THEN ParentExtraCons(n) ELSE <<>>),
       pobj |-> ParentObj(s.pat, n) \o (IF s.pown THEN ParentExtraObj ELSE <<>>), clone |-> s.clone, pown |-> s.pown,
@@ -83,8 +83,10 @@ MkMulti(s) ==
 KindSeqs == {<<a>> : a \in KindIds} \cup {<<a, b>> : a \in KindIds, b \in KindIds}
             \cup (IF Thorough THEN {<<a, b, c>> : a \in {"A", "B"}, b \in KindIds, c \in {"C", "D"}} ELSE {<<"A", "B", "D">>, <<"B", "C", "A">>})
 Space == {s \in [kinds : KindSeqs, hz : {"num", "fT", "fb"}, pat : {"none", "chain", "time"}, clone : BOOLEAN, withInt : BOOLEAN,
-                 reset : BOOLEAN, stagefirst : BOOLEAN, pown : BOOLEAN, pon : {"parent", "later", "earlier"}, late : BOOLEAN, valonly : BOOLEAN, seed : {Seed}] :
+                 reset : BOOLEAN, stagefirst : BOOLEAN, pown : BOOLEAN, pon : {"parent", "later", "earlier"}, late : BOOLEAN, valonly : BOOLEAN, qst : BOOLEAN, seed : {Seed}] :
             /\ (s.valonly => s.reset)
+            \* the integrand is also declared as a quadrature state of the template (state(quad=True)): every clone carries it
+            /\ (s.qst => s.clone /\ s.withInt /\ ~s.late /\ s.pon = "parent" /\ ~s.pown /\ ~s.stagefirst)
             /\ (s.late => Len(s.kinds) >= 2 /\ s.pon = "parent" /\ ~s.pown /\ ~s.reset /\ ~s.stagefirst /\ s.pat = "none" /\ s.clone)      \* nothing else invalidates after the stage is added
             /\ (s.pon # "parent" => s.pat = "chain" /\ ~s.pown /\ ~s.reset /\ ~s.stagefirst /\ Len(s.kinds) >= 2)
             /\ (s.pat = "time" => s.hz = "fb")
@@ -95,7 +97,7 @@ Space == {s \in [kinds : KindSeqs, hz : {"num", "fT", "fb"}, pat : {"none", "cha
             /\ (\A i \in 1..Len(s.kinds) : s.kinds[i] = "F" => i = 1 /\ Len(s.kinds) <= 2)
             /\ (s.withInt => \A i \in 1..Len(s.kinds) : KindOf(s.kinds[i]).rhs # "R7")
             /\ (s.reset => KindOf(s.kinds[1]).rhs # "R7")}
-Code(s) == (IF s.valonly THEN 1 ELSE 0) + (IF s.late THEN 3 ELSE 0) + (CASE s.pon = "parent" -> 0 [] s.pon = "later" -> 1 [] OTHER -> 2) + (IF s.pown THEN 1 ELSE 0) + (IF s.stagefirst THEN 2 ELSE 0) + Len(s.kinds) + (IF s.clone THEN 3 ELSE 0) + (IF s.withInt THEN 1 ELSE 0) + (IF s.reset THEN 5 ELSE 0)
+Code(s) == (IF s.valonly THEN 1 ELSE 0) + (IF s.late THEN 3 ELSE 0) + (CASE s.pon = "parent" -> 0 [] s.pon = "later" -> 1 [] OTHER -> 2) + (IF s.pown THEN 1 ELSE 0) + (IF s.stagefirst THEN 2 ELSE 0) + Len(s.kinds) + (IF s.clone THEN 3 ELSE 0) + (IF s.withInt THEN 1 ELSE 0) + (IF s.qst THEN 6 ELSE 0) + (IF s.reset THEN 5 ELSE 0)
            + (CASE s.hz = "num" -> 0 [] s.hz = "fT" -> 1 [] OTHER -> 2) + (CASE s.pat = "none" -> 0 [] s.pat = "chain" -> 7 [] OTHER -> 11)
            + (CASE s.kinds[1] = "A" -> 0 [] s.kinds[1] = "B" -> 1 [] s.kinds[1] = "C" -> 2 [] s.kinds[1] = "E" -> 4 [] s.kinds[1] = "F" -> 5 [] OTHER -> 3)
 Init == sc \in {s \in Space : Code(s) % Parts = Part}
